@@ -63,7 +63,8 @@ check('C03', 'proof',
 check('C04', 'proof',
       'Frame obligations for every function of the four modules, decided on the real AST: no global statement, no store or mutating call through a '
       'module-level name, module and class bodies hold only definitions and immutable constants, mutable defaults/module objects never mutated, '
-      'per-instance state created from fresh displays in __init__/clear, scripts executed in a copy of the instance context. Non-interference then '
+      'per-instance state created from fresh displays in __init__/clear, scripts executed in a copy of the instance context; no engine function '
+      'writes through an attribute of an object other than self or one it has just built (terms and atoms may be shared between engines). Non-interference then '
       'follows from the frame rule (paper). Threads are not modelled.',
       'Trusted: the AST frame checker (vf/props/compilerp.py), A-PY-ATTR (no monkey-patching). The thread clause rests on the GIL and is only exercised by a bounded two-thread run.',
       'frame/ownership contracts checked on the real AST (modifies-sets), plus bounded two-engine interleaving exploration', 'DESIGN 5/C04')
@@ -87,7 +88,8 @@ check('C09', 'proof',
       'compound and run-time bound goals and raises only for non-callable goals; once yields at most the first answer of call(goal) and ends quietly '
       'when there is none; findall yields once iff the bag unifies with makelist of the collected copies, after the goal iterator is exhausted; \\= '
       'yields once with no iterator suspended iff query(=) has no answer; = is su (C02); _set_builtin_predicates registers call for every arity '
-      '(call_n), once_1, findall_3, =_2, \\=_2.',
+      '(call_n), once_1, findall_3, =_2, \\=_2. Inline goals reach the builtins through compile_body/compile_predicate (one query(name, args) '
+      'loop per goal), which are verified here as in C01.',
       _ENG_NOTE, _VC + '; bounded differential runs of meta-call programs', 'DESIGN 5/C09')
 check('C10', 'proof',
       'Typestate obligations proved on the real body of _compile_prolog_from_stream: lexer and parser get an error listener whose syntaxError is a '
@@ -103,7 +105,8 @@ check('C11', 'proof',
       'pattern: the Python regular expression is translated to an SMT regular language); nesting_depth, compile_expression/compile_list bracket depth '
       'and the CompilerError guard of compile_function_body verified; compile_program/compile_function (one function per dictionary key), '
       'visitProgram (keys = clause heads) and the code generator (the emitted text is the rendering of spec/render.smt2: def name_<arity>(arg1..argN)) '
-      'verified. The shape of the whole output (parses, one generator def '
+      'verified; the engine half (load_script_from_string installs every key of the executed text, query looks the key up at call time) is '
+      'verified too. The shape of the whole output (parses, one generator def '
       'per clause-head key, loads) is decided by bounded stand-ins modulo A-PYGRAMMAR.',
       'Assumed: A-PYGRAMMAR, A-CPY-LIMITS, A-PY-STR (incl. str(n) is a decimal literal), A-EXT-ANTLR token rules. Trusted: AST checkers, SMT string solvers.',
       _VC + ' with the SMT string theory; AST provenance/template obligations; bounded boundary-program loading', 'DESIGN 5/C11')
@@ -117,7 +120,8 @@ check('C12', 'proof',
 check('C13', 'proof',
       '_copy_term/copy_terms are verified against the specification fresh_copy (resolve, then rename every unbound variable consistently to a new id); '
       'assert_fact stores a fresh copy, Answer.match unifies with a fresh copy per use; L-RN-FRESH (proved by induction): a fresh copy contains only '
-      'variables that did not exist before, so facts share no cell with callers or with each other.',
+      'variables that did not exist before, so facts share no cell with callers or with each other. An exhaustive small-scope stand-in covers '
+      'facts that differ only in their variable-sharing pattern and asserted variables that are themselves products of a copy.',
       _ENG_NOTE, _VC + ' with spec-level induction lemmas; bounded differential runs', 'DESIGN 5/C13')
 check('C14', 'proof',
       'Ownership obligations on every list mutation in the database functions (only unpublished lists are mutated in place); under the rely condition '
@@ -128,7 +132,8 @@ check('C14', 'proof',
 check('C15', 'proof',
       'get_value (module function and the three methods) is verified to return resolve(t, store), the fully dereferenced term, for every store; '
       'Variable.unify stores the resolved value; findall and assert_fact export fresh copies of resolved terms; to_python (function and three methods) '
-      'is verified against the value specification topy (dereferences at every depth).',
+      'is verified against the value specification topy (dereferences at every depth); the observers write nothing (frame obligation), so their '
+      'result depends on the term and the current bindings only.',
       _ENG_NOTE, _VC + '; bounded binding-history exploration for to_python and value stability', 'DESIGN 5/C15')
 check('C16', 'proof',
       'unquoteString verified with a loop invariant in the SMT string theory (result = text between the quotes with every backslash removed); `_` '
@@ -142,19 +147,23 @@ check('C16', 'proof',
 check('C17', 'proof',
       'evaluate_bounded is verified for all queries and projection functions: the recursion limit equals its entry value on every exit edge (normal '
       'and exceptional), RecursionError never escapes (setrecursionlimit may itself raise: modelled), the result holds one projected value per '
-      'consumed answer in order, and the query iterator is never left suspended. Where the depth limit strikes is CPython behaviour (bounded only).',
+      'consumed answer in order, and the query iterator is never left suspended. "All variables unbound again" rests on the finalisation contracts '
+      'of C03, which are part of this check (every unification generator resets exactly its own cells on resume, close and throw; engine generators '
+      'finalise their iterators; only Variable.unify writes a binding cell). Where the depth limit strikes is CPython behaviour (bounded only).',
       _ENG_NOTE, _VC + ' with exceptional control-flow edges (try/except/finally); bounded fault enumeration', 'DESIGN 5/C17')
 check('C18', 'proof',
       'Self-composition by congruence, decided on the real AST: no function reachable from the compile entry points uses a choice primitive '
       '(iteration over sets, hash, id, random, time, environment) or reads module-/class-level mutable state; all stateful objects and counters are '
-      'created per call; no function is wrapped by a state-holding decorator and none stores into the caller\'s options object. Debug streams (not the '
+      'created per call; no function is wrapped by a state-holding decorator and none stores into the caller\'s options object; only modules whose '
+      'functions are functions of their arguments are imported (no cache such as linecache, no clock, no file-system lookups). Debug streams (not the '
       'returned text) print object addresses and are outside the statement.',
       'Assumed: ANTLR runtime deterministic, dict insertion order, str/list primitives functional. Trusted: the AST checker.',
       'determinism contracts (no choice primitive, frame conditions) checked on the real AST; bounded hash-seed/process differential', 'DESIGN 5/C18')
 check('C19', 'proof',
       'Non-interference of the debug flags decided on the real AST: the flags are read only in the guards of the _debug methods (which write "# "+line '
       'per line), the visitor constructor and the header choice (comment text in both alternatives); debug arguments and __str__ methods are '
-      'effect-free; the tracing wrapper returns the wrapped result; CLI and library share _compile_prolog_from_stream and UTF-8 decoding; syntax '
+      'effect-free; the tracing wrapper returns the wrapped result; CLI and library share _compile_prolog_from_stream and UTF-8 decoding; the stream '
+      'main writes to comes from an opener that hands out only sys.stdout or open(<parameter>, \'w\'); syntax '
       'errors become CLI errors with position.',
       'Assumed: A-EXT-CLICK, str.splitlines (A-PY-STR). Trusted: the AST checker.',
       'information-flow (taint) contracts on the debug flags checked on the real AST; bounded CLI-vs-library differential', 'DESIGN 5/C19')
